@@ -51,7 +51,7 @@ REAL = ['asyncssh endpoint (client or server role): connection, packet, '
         'channel, auth, public_key decoding', 'PyCA']
 STUB = ['event loop + clock', 'TCP', 'executor', 'OS randomness',
         'byte-level hostile peer', 'RefPeer as keyed hostile peer']
-PROBES = ['mode_bytes', 'mode_keyed', 'role_server', 'role_client',
+PROBES = ['mode_agent', 'agent_client_admitted', 'mode_bytes', 'mode_keyed', 'role_server', 'role_client',
           'extreme_pktsize', 'extreme_window', 'conn_ended_with_error',
           'conn_survived', 'preauth_hostile', 'postauth_hostile',
           'version_line_attack', 'banner_attack', 'binary_garbage']
@@ -59,6 +59,10 @@ PROBES = ['mode_bytes', 'mode_keyed', 'role_server', 'role_client',
 EXTREMES = [0, 1, 2, 0x7fffffff, 0x80000000, 0xffffffff]
 
 # -- field templates ----------------------------------------------------------------
+
+AGENT_SHAPES = ['ok', 'ok', 'failure', 'wrong_type', 'empty_frame',
+                'huge_count', 'truncated', 'huge_frame', 'garbage', 'close',
+                'extra_bytes', 'zero_len_fields', 'two_replies']
 
 KEXINIT_LISTS = [b'curve25519-sha256', b'ssh-ed25519', b'aes128-ctr',
                  b'aes128-ctr', b'hmac-sha2-256', b'hmac-sha2-256', b'none',
@@ -201,7 +205,21 @@ def render(fields, muts, rng):
 
 def gen_plan(rng):
     role = rng.choice(['server', 'client'])
-    mode = rng.weighted([('bytes', 35), ('keyed', 65)])
+    mode = rng.weighted([('bytes', 33), ('keyed', 60), ('agent', 7)])
+
+    if mode == 'agent':
+        # a hostile key agent answers the client's agent requests
+        return {
+            'drbg': rng.below(1 << 30),
+            'profile': {'p_sched': rng.choice([0, 20, 70]),
+                        'p_chunk': rng.choice([10, 60]),
+                        'latency_ms': 0, 'capacity': 0,
+                        'max_iterations': 6000},
+            'role': 'client', 'mode': 'agent',
+            'list_reply': rng.choice(AGENT_SHAPES),
+            'sign_reply': rng.choice(AGENT_SHAPES),
+            'rnd': rng.below(1 << 30),
+        }
     plan = {
         'drbg': rng.below(1 << 30),
         'profile': {'p_sched': rng.choice([0, 20, 70]),
@@ -277,8 +295,13 @@ def gen_plan(rng):
 def valid_plan(plan):
     try:
         if plan['role'] not in ('server', 'client') or \
-                plan['mode'] not in ('bytes', 'keyed'):
+                plan['mode'] not in ('bytes', 'keyed', 'agent'):
             return False
+
+        if plan['mode'] == 'agent':
+            return plan['role'] == 'client' and \
+                plan['list_reply'] in AGENT_SHAPES and \
+                plan['sign_reply'] in AGENT_SHAPES
 
         if plan['mode'] == 'bytes':
             for op in plan['ops']:
@@ -435,7 +458,8 @@ class HServer(RecServer):
         return True
 
     def validate_public_key(self, username, k):
-        return False
+        return self.plan.get('mode') == 'agent' and username == 'alice' and \
+            k.public_data == pubkey('user_ed25519').public_data
 
     def kbdint_auth_supported(self):
         return True
@@ -600,8 +624,118 @@ def run_plan(plan, sched_seed=None, sched_replay=None):
         except Closed:
             pass
 
+    class HostileAgent(asyncio.Protocol):
+        """Answers agent requests with drawn shapes"""
+
+        def __init__(self):
+            self.buf = b''
+            self.t = None
+            self.rng = Rng('agent:%d' % plan['rnd'])
+
+        def connection_made(self, transport):
+            self.t = transport
+
+        def data_received(self, data):
+            self.buf += data
+
+            while len(self.buf) >= 4:
+                n = int.from_bytes(self.buf[:4], 'big')
+
+                if len(self.buf) < 4 + n:
+                    return
+
+                msg, self.buf = self.buf[4:4 + n], self.buf[4 + n:]
+                self.answer(msg)
+
+        def frame(self, payload):
+            res['delivered'] += 4 + len(payload)
+            self.t.write(u32(len(payload)) + payload)
+
+        def answer(self, msg):
+            from simkit.refssh.peer import public_blob, sign as ref_sign
+            kind = msg[0] if msg else 0
+            shape = plan['list_reply'] if kind == 11 else plan['sign_reply']
+            priv = load_private('user_ed25519')
+            blob = public_blob(priv)
+
+            if kind == 11:
+                good = bytes([12]) + u32(1) + string(blob) + string(b'k')
+            elif kind == 13:
+                try:
+                    r = Reader(msg, 1)
+                    r.string()
+                    data = r.string()
+                except Short:
+                    data = b''
+
+                good = bytes([14]) + string(ref_sign(priv, b'ssh-ed25519',
+                                                     data))
+            else:
+                good = bytes([5])
+
+            if shape == 'ok':
+                self.frame(good)
+            elif shape == 'failure':
+                self.frame(bytes([5]))
+            elif shape == 'wrong_type':
+                self.frame(bytes([self.rng.below(256)]) + good[1:])
+            elif shape == 'empty_frame':
+                self.frame(b'')
+            elif shape == 'huge_count':
+                self.frame(bytes([good[0]]) + u32(0xffffffff) + good[5:])
+            elif shape == 'truncated':
+                self.frame(good[:1 + self.rng.below(max(1, len(good) - 1))])
+            elif shape == 'huge_frame':
+                res['delivered'] += 12
+                self.t.write(u32(0x7fffffff) + good[:8])
+                self.t.close()
+            elif shape == 'garbage':
+                self.frame(self.rng.bytes(1 + self.rng.below(60)))
+            elif shape == 'close':
+                self.t.close()
+            elif shape == 'extra_bytes':
+                self.frame(good + self.rng.bytes(3))
+            elif shape == 'zero_len_fields':
+                self.frame(bytes([good[0]]) + (u32(1) + string(b'') +
+                                               string(b'') if kind == 11
+                                               else string(b'')))
+            else:
+                self.frame(good)
+                self.frame(good)
+
     async def main():
-        if role == 'server':
+        if plan['mode'] == 'agent':
+            acc = await asyncssh.listen(
+                '127.0.0.1', 22, server_factory=sfactory,
+                **server_opts(encoding=None, login_timeout=30))
+            agent_srv = await sim.loop.create_unix_server(HostileAgent,
+                                                          '/agent.sock')
+
+            async def client():
+                try:
+                    conn = await asyncssh.connect(
+                        '127.0.0.1', 22, client_factory=cfactory,
+                        **client_opts(
+                            known_hosts=([pubkey('host_ed25519')], [], []),
+                            username='alice', password='pw-alice',
+                            client_keys=(), agent_path='/agent.sock',
+                            login_timeout=30))
+                    res['conn'] = conn
+                    sim.probes['agent_client_admitted'] += 1
+                except Exception as exc: # pylint: disable=broad-except
+                    res['exc'] = exc
+
+            sim.track('client', client())
+            await world.gate('done')
+
+            if res['conn'] is not None:
+                res['conn'].close()
+                await res['conn'].wait_closed()
+
+            agent_srv.close()
+            acc.close()
+            await acc.wait_closed()
+        elif role == 'server':
             acc = await asyncssh.listen(
                 '127.0.0.1', 22, server_factory=sfactory,
                 **server_opts(encoding=None, login_timeout=30,
@@ -662,6 +796,9 @@ def run_plan(plan, sched_seed=None, sched_replay=None):
                             known_hosts=([pubkey('host_ed25519')], [], []),
                             username='alice', password='pw-alice',
                             login_timeout=30,
+                            # (makes the hostkeys-00 rotation request of a
+                            # hostile server reach its parser)
+                            server_host_keys_handler=lambda *a: None,
                             compression_algs=[plan.get('cmp', 'none')]))
                     res['conn'] = conn
 
@@ -705,7 +842,8 @@ def run_plan(plan, sched_seed=None, sched_replay=None):
                         % (sim.loop.iterations, sim.loop.time()))
 
     hostile_in = (res['raw'].sent if res['raw'] else 0) + \
-        (sum(len(p) for p in peer.sent) if peer else 0)
+        (sum(len(p) for p in peer.sent) if peer else 0) + \
+        (res['delivered'] if plan['mode'] == 'agent' else 0)
     out_bytes = sum(t.out.written_total for t in sim.net.transports
                     if isinstance(t._protocol, asyncssh.SSHClientConnection
                                   if role == 'client'
@@ -768,7 +906,7 @@ def run_plan(plan, sched_seed=None, sched_replay=None):
 
         if plan['open']['window'] in EXTREMES:
             sim.probes['extreme_window'] += 1
-    else:
+    elif plan['mode'] == 'bytes':
         kinds = {op[0] for op in plan['ops']}
 
         if 'hugever' in kinds:
